@@ -50,7 +50,9 @@ def canon_path(p, opfns):
         if k == "eval":
             events.append(("eval", e[1]))
         elif k == "op":
-            events.append(("op",) + tuple(e[2:]))
+            # the operands proper: evaluated sub-expressions and the node's own fields (a mode selector or a function
+            # item handed to a shared helper is not an operand)
+            events.append(("op",) + tuple(a for a in e[2:] if "ev(" in a or "self." in a))
             op_term = "%s(%s)" % (short_callee(e[1]), ", ".join(e[2:]))
         elif k == "call":
             name = e[1]
@@ -202,6 +204,19 @@ def strip_op_args(path):
     return (conds, tuple(out), ret)
 
 
+LAZY_KINDS = ("If", "And", "Or", "Equals", "NotEquals")
+_CHILD = _re.compile(r"^ev\(self\.\w+\.\d+\)$")
+
+
+def order_projection(path):
+    conds, events, ret = path
+    conds = frozenset(c for c in conds if (_CHILD.match(c[0]) and c[1] in ("is Ok", "is Err")) or c[0].startswith("next("))
+    events = tuple(e for e in events if e[0] != "op")
+    if not (ret.startswith("Err(ev(") and ret.endswith(".Err.0)")):
+        ret = "RESULT"
+    return (conds, events, ret)
+
+
 def compare_rows(table, classes=("bool", "other", "none"), ignore_op_wiring=False, kinds=None, tags_result_only=False):
     """-> (mismatches, stats).  mismatch = {kind, missing:[...], unexpected:[...]}"""
     mismatches = []
@@ -223,6 +238,12 @@ def compare_rows(table, classes=("bool", "other", "none"), ignore_op_wiring=Fals
         if ignore_op_wiring:
             actual = set(strip_op_args(x) for x in actual)
             exp = set(strip_op_args(x) for x in exp)
+            if kind not in LAZY_KINDS and kind in table.get("cells_by_kind", {}):
+                # a strict operator node: what matters for the order is which sub-expressions are evaluated, in which
+                # order, and that the first failure ends the evaluation — not on which operand tags the operator code
+                # branches afterwards, nor whether a helper answers before the operator function is reached
+                actual = set(order_projection(x) for x in actual)
+                exp = set(order_projection(x) for x in exp)
         npaths += len(actual)
         if actual != exp:
             mismatches.append({
